@@ -184,3 +184,20 @@ func vh_handshake_wnd() {
 		vreach("scaled")
 	}
 }
+
+// SYN cookies carry the peer's MSS as an index into mssTable: the MSS restored from the cookie
+// must not exceed what the peer announced (else segments larger than its MSS are sent), and
+// should be the largest table entry that fits.
+func vh_cookie_mss() {
+	mss := vnU16("mss")
+	idx := encodeMSS(mss)
+	vassert(int(idx) < len(mssTable), "the encoded MSS is a valid table index")
+	got := mssTable[idx]
+	vassertKnown(got <= mss, "the MSS restored from a SYN cookie never exceeds the MSS the peer announced", "D12-cookie-mss-floor", mss < mssTable[0])
+	for _, t := range mssTable {
+		if t <= mss {
+			vassert(got >= t, "and it is the largest table entry not above it")
+		}
+	}
+	vreach("cookie-mss")
+}
